@@ -334,6 +334,18 @@ fn trim_whitespace_start(mut tokens: &[PreprocessToken]) -> &[PreprocessToken] {
     tokens
 }
 
+/// Remove whitespace, comments and endlines from the start of a token stream
+fn trim_whitespace_and_endlines_start(mut tokens: &[PreprocessToken]) -> &[PreprocessToken] {
+    while let Some((PreprocessToken(tok, _), rest)) = tokens.split_first() {
+        if tok.is_whitespace() {
+            tokens = rest;
+        } else {
+            break;
+        }
+    }
+    tokens
+}
+
 /// Remove whitespace and comments from the end of a token stream - but not endlines
 fn trim_whitespace_end(mut tokens: &[PreprocessToken]) -> &[PreprocessToken] {
     while let Some((PreprocessToken(tok, _), rest)) = tokens.split_last() {
@@ -355,8 +367,8 @@ fn split_macro_args<'stream>(
     macro_name: &str,
     remaining: &'stream [PreprocessToken],
 ) -> Result<(&'stream [PreprocessToken], Vec<&'stream [PreprocessToken]>), PreprocessError> {
-    // Consume the starting bracket
-    let remaining = trim_whitespace_start(remaining);
+    // Consume the starting bracket - which may be on a later line than the macro name
+    let remaining = trim_whitespace_and_endlines_start(remaining);
     let mut remaining = if let [PreprocessToken(Token::LeftParen, _), rest @ ..] = remaining {
         rest
     } else {
@@ -754,7 +766,7 @@ fn find_single_macro(
 
                     // Check we have the start of function parameters
                     if macro_def.is_function {
-                        let trimmed = trim_whitespace_start(&tokens[i + 1..]);
+                        let trimmed = trim_whitespace_and_endlines_start(&tokens[i + 1..]);
                         activate_pos = tokens.len() - trimmed.len();
                         let [PreprocessToken(Token::LeftParen, _), ..] = trimmed else {
                             continue;
